@@ -25,7 +25,7 @@ func ruleFloat(c *Ctx) {
 						if !isFloatType(x.X.Type()) || !isIntType(x.Type()) {
 							continue
 						}
-						nconv++
+						nconv += siteWeight(c.P, fn)
 						key := fmt.Sprintf("float-to-int/%s#%s", funcName(fn), instrOrdinal(x))
 						if roundedValue(x.X) {
 							c.OK("FLOAT", key, x.Pos(), "the converted value is the result of a rounding call")
@@ -38,7 +38,7 @@ func ruleFloat(c *Ctx) {
 						}
 						for _, o := range []ssa.Value{x.X, x.Y} {
 							if k, ok := o.(*ssa.Const); ok && k.Value != nil {
-								nscale++
+								nscale += siteWeight(c.P, fn)
 								scales[k.Value.ExactString()] = x.Pos()
 								c.OK("FLOAT", fmt.Sprintf("scale/%s#%s", funcName(fn), instrOrdinal(x)), x.Pos(), "scale constant "+k.Value.ExactString())
 							}
@@ -135,6 +135,7 @@ func ruleSBigInt(c *Ctx) {
 					c.Check(gt && lt, "S-bigint", key, call.Pos(), "called only after the number was shown to lie within [MinInt64, MaxInt64]",
 						"scriptNumber.Int64 converts without first excluding values above MaxInt64 / below MinInt64: large numbers wrap instead of saturating")
 				case "(*bscript/interpreter.scriptNumber).Bytes":
+					n-- // a tolerated use, not one the rule depends on: its disappearance changes nothing
 					c.OK("S-bigint", key, call.Pos(), "Bytes uses the conversion for the pre-genesis clamp hint and to extract the low byte of a shrinking copy (low bits are what is wanted)")
 				case "(*bscript/interpreter.scriptNumber).Int":
 					// legacy accessor kept for its tests: it must have no callers in the library
@@ -154,5 +155,27 @@ func ruleSBigInt(c *Ctx) {
 			}
 		}
 	}
-	c.MinInstances("S-bigint", n, 4)
+	c.MinInstances("S-bigint", n, 2)
+}
+
+// siteWeight: how many sites of the baseline tree a construct stands for: 1 inside a baseline function;
+// inside a helper outside the baseline list (duplicated code merged into one shared helper) the number of
+// places the helper is called from, so that the vacuity guards still count what the code does.
+func siteWeight(p *Prog, fn *ssa.Function) int {
+	if inlineHelper == nil || !inlineHelper(fn) {
+		return 1
+	}
+	node := p.CG().Nodes[fn]
+	n := 0
+	if node != nil {
+		for _, e := range node.In {
+			if inScope(pkgPathOf(e.Caller.Func)) {
+				n += siteWeight(p, e.Caller.Func)
+			}
+		}
+	}
+	if n == 0 {
+		return 1
+	}
+	return n
 }
